@@ -20,6 +20,13 @@ code -> spec : seeded random MULTI-setting configurations with ugly concrete val
 structs      : struct-valued options (WithRawSpanLimits / WithSpanLimits literal structs, both log record
                options): every field class {zero, negative, positive} incl. the all-zero struct x field
                variable {absent, valid, ill-formed}; each option modelled from ITS doc comment (DocSrc).
+huge         : value class HUGE -- syntactically valid integers whose unit conversion overflows (milliseconds that do
+               not fit the nanosecond clock, batch sizes near MaxInt) in every source position of the exporter
+               timeouts and of the BSP / BLRP durations and batch sizes: given their meaning (never limits / never
+               elapses / holds everything) or ignored, never a panic, a hang or some SHORT value.
+paths        : URL path classes (raw space, %20, %2F, '+' ';', escaped + trailing slash, query string) through the
+               signal variable, the generic variable, WithEndpointURL and WithURLPath of the HTTP exporters; the
+               collectors record the request target as sent on the wire (RequestURI), the model's Wire() decides.
 cross        : metamorphic clause of the batch processors: a configuration of the four variables and
                NormalizeCross(cfg) (ill-formed values without documented meaning -> absent) are both executed,
                queue capacity / batch size / export deadline of both are logged as `Pair` lines and compared
@@ -34,12 +41,13 @@ thorough : the full product incl. all 3^6 structs, four representatives of every
 """
 import json
 import os
+import urllib.parse
 import random
 import re
 
 S = "ConfigPrecedence"
 EXPORTERS = ["otlptracehttp", "otlptracegrpc", "otlpmetrichttp", "otlpmetricgrpc", "otlploghttp", "otlploggrpc"]
-FAMILIES = ["endpoint", "headers", "compression", "timeout", "sdk", "limits", "sampler", "structs", "cross"]
+FAMILIES = ["endpoint", "headers", "compression", "timeout", "sdk", "limits", "sampler", "structs", "cross", "huge", "paths"]
 
 
 def tla_set(xs):
@@ -50,10 +58,14 @@ def kinds_of(case):
     out = []
     for s in case["srcs"]:
         k = s["k"]
-        if s.get("v") and (case["fam"] in ("endpoint", "sampler") or case["setting"] == "compression"):
+        if s.get("v") and (case["fam"] in ("endpoint", "sampler") or case["setting"] == "compression" or k == "huge"):
             k += "(" + s["v"] + ")"
         out.append(k)
     return ",".join(out)
+
+
+def _unq(p):
+    return urllib.parse.unquote(p)
 
 
 def obs_class(case, obs, ideal):
@@ -69,6 +81,12 @@ def obs_class(case, obs, ideal):
             return "who"
         if "//" in path and path.replace("//", "/") in ipaths:
             return "path-double-slash"
+        # URL path classes: the request target differs from the written path only in its percent-escapes
+        if "%25" in path and path.replace("%25", "%") in ipaths:
+            return "path-double-escaped"            # an existing escape was escaped again (%20 -> %2520)
+        if path not in ipaths and any(_unq(path) == _unq(p) for p in ipaths):
+            esc_slash = any("%2F" in p.upper() for p in ipaths) and "%2F" not in path.upper()
+            return "path-escaped-slash-decoded" if esc_slash else "path-escaping"
         if path + "/" in ipaths:
             return "path-trailing-slash-stripped"
         return "path"
@@ -145,6 +163,11 @@ def pairwise_new_class(act):
     return any(new(i, x) for i, x in srcs) and all(new(i, x) or plain(i, x) for i, x in srcs)
 
 
+def is_path_class(act):
+    """endpoint case with a path that needs escaping / is already escaped / carries a query"""
+    return act["fam"] == "endpoint" and any(ch in (x.get("v") or "") for x in act["srcs"] for ch in " %+;?")
+
+
 def sample_edges(ctx, edges_file, out_file):
     """quick tier: every SDK / limits / sampler / struct / cross case, every exporter case whose OPTION
     source is ill-formed, and a seeded third of the remaining exporter cases."""
@@ -155,7 +178,9 @@ def sample_edges(ctx, edges_file, out_file):
             total += 1
             act = json.loads(line)["act"]
             keep = True
-            if act["comp"] not in ("sdk", "bsp", "blrp"):
+            if any(x["k"] == "huge" for x in act["srcs"]) or is_path_class(act):
+                keep = True      # value class HUGE and the URL path classes: always complete
+            elif act["comp"] not in ("sdk", "bsp", "blrp"):
                 opt = act["srcs"][0]["k"]
                 illformed_opt = opt in ("badurl", "badenum", "unknown", "neg", "zero")
                 keep = illformed_opt or pairwise_new_class(act) or rnd.random() < 1.0 / 3
@@ -268,7 +293,8 @@ def run(ctx):
     for k in ("random.kind.exporter", "random.kind.tracer", "random.kind.logger", "random.kind.bsp", "random.kind.blrp",
               "random.kind.cross", "random.tracer.struct.raw", "random.tracer.struct.nonraw", "cases.cross.bsp", "cases.cross.blrp",
               "cases.struct.raw", "cases.struct.nonraw", "cases.struct.logopts",
-              "random.illformed_sources", "random.exporter.delivered", "random.tracer.limit_observed"):
+              "random.illformed_sources", "random.exporter.delivered", "random.tracer.limit_observed",
+              "cases.huge", "cases.pathclass"):
         if not c.get(k):
             ctx.note_inconclusive("random driver never reached regime %s" % k)
     ctx.assumptions += [
